@@ -308,7 +308,7 @@ func (g *Rig) arm(st Step) {
 	switch st.Split.Point {
 	case PtStart, PtInit:
 		g.sched.Arm(st.Split.Point, func(any) bool { return !soloBusy.Load() })
-	case PtWFlush, PtWComplete, PtWError:
+	case PtWFlush, PtWComplete, PtWError, PtWHeartbeat:
 		target := st.Split.Target
 		g.sched.Arm(st.Split.Point, func(key any) bool { i, ok := key.(int); return ok && i == target })
 	default:
